@@ -71,7 +71,11 @@ static int decide(int me) {
     int runnable = 0; /* enabled and not known to be spinning on a lock */
     for (int i = 0; i < g_nthreads; ++i)
         if ((mask >> i & 1) && !g_spinning[i]) runnable |= 1 << i;
-    if (runnable == 0) { g_error = 2; runnable = mask; }
+    if (runnable == 0) { /* every unfinished thread waits for a lock another one holds: a deadlock of the code under test */
+        static const char msg[] = "\nHARNESS-DEADLOCK: every unfinished thread is blocked on a lock held by another thread\n";
+        (void)!write(1, msg, sizeof msg - 1);
+        _exit(98);
+    }
     int choice;
     int idx = g_npoints;
     if (idx < g_prefix_len) {
